@@ -61,6 +61,7 @@ type EntryInfo struct {
 	OldCells map[*Cell]*Val
 	Results []*types.Var
 	FreeCells map[string]*Cell
+	FreeVals  map[string]*Val
 }
 
 func (x *Exec) note(s string) { x.Notes[s] = true }
@@ -138,7 +139,7 @@ func (x *Exec) constVal(c *ssa.Const) *Val {
 		return &Val{T: t, Term: StrLit(constant.StringVal(c.Value))}
 	case constant.Int:
 		if leafSort(t) == SReal {
-			return &Val{T: t, Term: mk(kLit, c.Value.ExactString()+".0", SReal)}
+			return &Val{T: t, Term: realLit(c.Value)}
 		}
 		if floatMode {
 			return &Val{T: t, Term: fmConst(t, c.Value)}
@@ -148,8 +149,7 @@ func (x *Exec) constVal(c *ssa.Const) *Val {
 		if floatMode {
 			return &Val{T: t, Term: fmConst(t, c.Value)}
 		}
-		f, _ := constant.Float64Val(c.Value)
-		return &Val{T: t, Term: UF(fmt.Sprintf("real!%v", f), SReal)}
+		return &Val{T: t, Term: realLit(c.Value)}
 	}
 	unsupportedf("constant %s", c)
 	return nil
@@ -397,8 +397,15 @@ func (x *Exec) instr(st *State, fr *Frame, in ssa.Instruction) {
 		kv := x.val(st, fr, i.Key)
 		vv := x.val(st, fr, i.Value)
 		mt := i.Map.Type().Underlying().(*types.Map)
-		k := x.site(st, "mapwrite")
-		x.oblige(st, "nopanic", fmt.Sprintf("nopanic:nil-map-write#%d", k), Neq(mv.Term, IntLit(0)), i.Pos(), "")
+		if x.mayPanic() && !Neq(mv.Term, IntLit(0)).IsTrue() {
+			ps := x.fork(st)
+			ps.Assume(Eq(mv.Term, IntLit(0)))
+			pv := &Val{T: types.NewInterfaceType(nil, nil), Term: Fresh("panicval$nilmap", SInt)}
+			x.startPanic(ps, pv, "assignment to entry in nil map at "+x.V.P.Pos(i.Pos()))
+		} else {
+			k := x.site(st, "mapwrite")
+			x.oblige(st, "nopanic", fmt.Sprintf("nopanic:nil-map-write#%d", k), Neq(mv.Term, IntLit(0)), i.Pos(), "")
+		}
 		st.Assume(Neq(mv.Term, IntLit(0)))
 		st.mapStore(mt, mv.Term, x.keyTerm(kv), x.settle(st, vv))
 	case *ssa.MakeMap:
@@ -960,24 +967,77 @@ func typeID(t types.Type) *Term {
 
 func dynType(v *Term) *Term { return UF("dyntype", SInt, v) }
 
-func (x *Exec) makeInterface(st *State, v *Val, from types.Type, to types.Type) *Val {
+type boxSig struct {
+	TypeID *Term
+	Paths  []string
+	Sorts  []Sort
+	TName  string
+}
+
+var boxRegistry = map[string]*boxSig{}
+
+// boxTerm builds the interface value holding v (of static type `from`). The axioms of box terms
+// (non-nil, dynamic type, unboxing) are added per ground occurrence when a query is printed.
+func boxTerm(ts []*Term, from types.Type) *Term {
 	tn := typeName(from)
+	name := smtName("box$" + tn)
+	if _, ok := boxRegistry[name]; !ok {
+		var ls []leafInfo
+		leaves(from, "", &ls)
+		bs := &boxSig{TypeID: typeID(from), TName: tn}
+		for _, l := range ls {
+			bs.Paths = append(bs.Paths, l.Path)
+			bs.Sorts = append(bs.Sorts, l.Sort)
+		}
+		boxRegistry[name] = bs
+	}
+	if len(ts) == 0 {
+		return UF("box$"+tn, SInt)
+	}
+	return UF("box$"+tn, SInt, ts...)
+}
+
+// boxAxioms returns the ground axioms for every box term occurring in ts.
+func boxAxioms(ts []*Term) []*Term {
+	var out []*Term
+	seen := map[*Term]bool{}
+	done := map[string]bool{}
+	var walk func(t *Term)
+	walk = func(t *Term) {
+		if seen[t] {
+			return
+		}
+		seen[t] = true
+		for _, a := range t.Args {
+			walk(a)
+		}
+		if (t.Kind == kUF || t.Kind == kConst) && !t.hasBV {
+			if bs, ok := boxRegistry[t.Op]; ok && !done[t.String()] {
+				done[t.String()] = true
+				out = append(out, Gt(t, IntLit(0)), Eq(dynType(t), bs.TypeID))
+				for k := range bs.Paths {
+					if k < len(t.Args) {
+						out = append(out, Eq(UF("unbox$"+bs.TName+"$"+bs.Paths[k], bs.Sorts[k], t), t.Args[k]))
+					}
+				}
+			}
+		}
+	}
+	for _, t := range ts {
+		walk(t)
+	}
+	return out
+}
+
+func (x *Exec) makeInterface(st *State, v *Val, from types.Type, to types.Type) *Val {
+	if _, isIface := from.Underlying().(*types.Interface); isIface {
+		return &Val{T: to, Term: v.Term}
+	}
 	var ts []*Term
 	fv := x.toHeapVal(st, v, from)
 	flatten(fv, &ts)
-	var ls []leafInfo
-	leaves(from, "", &ls)
-	var b *Term
-	if len(ts) == 0 {
-		b = UF("box$"+tn, SInt)
-	} else {
-		b = UF("box$"+tn, SInt, ts...)
-	}
+	b := boxTerm(ts, from)
 	st.Assume(Gt(b, IntLit(0)))
-	st.Assume(Eq(dynType(b), typeID(from)))
-	for k, l := range ls {
-		st.Assume(Eq(UF("unbox$"+tn+"$"+l.Path, l.Sort, b), ts[k]))
-	}
 	out := &Val{T: to, Term: b}
 	if v.Clo != nil {
 		out.Clo = v.Clo
@@ -1044,9 +1104,16 @@ func (x *Exec) convert(st *State, i *ssa.Convert, v *Val) *Val {
 		case fb.Info()&types.IsString != 0 && tb.Info()&types.IsString != 0:
 			return &Val{T: to, Term: v.Term}
 		case fb.Info()&types.IsInteger != 0 && tb.Info()&types.IsFloat != 0:
-			return &Val{T: to, Term: UF("int2real", SReal, v.Term)}
+			x.note("float64 arithmetic is treated as exact real arithmetic (rounding not modelled)")
+			return &Val{T: to, Term: toReal(v.Term)}
 		case fb.Info()&types.IsFloat != 0 && tb.Info()&types.IsInteger != 0:
-			return &Val{T: to, Term: UF("real2int", SInt, v.Term)}
+			x.note("float64 arithmetic is treated as exact real arithmetic (rounding not modelled)")
+			tr := truncReal(v.Term)
+			lo, hi := intRange(to)
+			inr := And(Ge(tr, BigLit(lo)), Le(tr, BigLit(hi)))
+			w := UF("float2int$outofrange", SInt, v.Term)
+			st.Assume(And(Ge(w, BigLit(lo)), Le(w, BigLit(hi))))
+			return &Val{T: to, Term: Ite(inr, tr, w)}
 		case fb.Info()&types.IsFloat != 0 && tb.Info()&types.IsFloat != 0:
 			return &Val{T: to, Term: v.Term}
 		case fb.Info()&types.IsInteger != 0 && tb.Info()&types.IsString != 0:
@@ -1193,4 +1260,32 @@ func (x *Exec) appendOp(st *State, s, t *Val, typ types.Type) *Val {
 	}
 	st.Assume(Ge(tlen, IntLit(0)))
 	return &Val{T: typ, Fields: []*Val{{Term: nb}, {Term: Add(slen, tlen)}}}
+}
+
+func realLit(v constant.Value) *Term {
+	r := constant.ToFloat(v)
+	num := constant.Num(r)
+	den := constant.Denom(r)
+	ns, ds := num.ExactString(), den.ExactString()
+	neg := false
+	if strings.HasPrefix(ns, "-") {
+		neg = true
+		ns = ns[1:]
+	}
+	t := "(/ " + ns + ".0 " + ds + ".0)"
+	if ds == "1" {
+		t = ns + ".0"
+	}
+	if neg {
+		t = "(- " + t + ")"
+	}
+	return mk(kLit, t, SReal)
+}
+
+func toReal(t *Term) *Term { return mk(kApp, "to_real", SReal, t) }
+
+// truncReal: conversion float -> integer truncates toward zero.
+func truncReal(t *Term) *Term {
+	zero := mk(kLit, "0.0", SReal)
+	return Ite(mk(kApp, ">=", SBool, t, zero), mk(kApp, "to_int", SInt, t), Sub(IntLit(0), mk(kApp, "to_int", SInt, mk(kApp, "-", SReal, t))))
 }
